@@ -265,7 +265,7 @@ def expand_item(repo, relfile, selector, body, tmpl_name, tmpl_line, opts):
                 raise LostAnchor("; ".join(errs))
             add(pos, pos, ("\n" if d == "after" else "") + text + "\n", origin_nl if d == "after" else origin, None)
         elif d == "loop":
-            n, hdr = arg
+            n, hdr, itname = arg
             loops = list(rs.loop_headers(m, fp.body_open + 1, fp.body_close))
             if n < 1 or n > len(loops):
                 raise LostAnchor("%s: loop %d not found (%d loops)" % (selector, n, len(loops)))
@@ -273,6 +273,23 @@ def expand_item(repo, relfile, selector, body, tmpl_name, tmpl_line, opts):
             if hdr and not _norm(src[s:b]).startswith(_norm(hdr)):
                 raise LostAnchor("%s: loop %d header is `%s`, expected `%s`" % (selector, n, _norm(src[s:b]), hdr))
             add(b, b, "\n" + text + "\n", origin_nl, None)
+            if itname and itname.startswith("index:"):
+                # T8b: `for X in E {` (E an owned Vec)  ->  `let __seq_i = E; for i in 0..__seq_i.len() { let X = &__seq_i[i];`
+                iv = itname.split(":", 1)[1]
+                mh = re.match(r"for\s+([A-Za-z_][A-Za-z0-9_]*)\s+in\s+(.*?)\s*$", src[s:b], re.S)
+                if not mh:
+                    raise LostAnchor("%s: loop %d is not a simple `for x in E` loop" % (selector, n))
+                x_, e_ = mh.group(1), mh.group(2)
+                add(s, b, "let __seq_%s = %s; for %s in 0..__seq_%s.len() " % (iv, _norm(e_), iv, iv),
+                    ("repo", relfile, line_of(src, s)), "T8b", "`for %s in <owned Vec>` -> index loop over a borrowed element" % x_)
+                add(b + 1, b + 1, " let %s = &__seq_%s[%s];" % (x_, iv, iv), ("repo", relfile, line_of(src, s)), None)
+            elif itname:
+                # T7i: name the ghost iterator of a for loop:  `for x in E {`  ->  `for x in <name>: E {`
+                mi = re.search(r"\bin\s+", m[s:b])
+                if not mi or not m[s:b].lstrip().startswith("for"):
+                    raise LostAnchor("%s: loop %d is not a for loop" % (selector, n))
+                add(s + mi.end(), s + mi.end(), "%s: " % itname, ("repo", relfile, line_of(src, s)), "T7i",
+                    "ghost iterator of the for loop named `%s`" % itname)
         elif d == "noop-closure":
             pass
         elif d == "rename":
@@ -482,8 +499,13 @@ def parse_template(path):
                         cur = (d2, None, [], i + 1)
                         body.append(cur)
                     elif d2 == "loop":
-                        t = re.match(r"(\d+)\s*(?:`(.*)`)?\s*$", a2)
-                        cur = (d2, (int(t.group(1)), t.group(2)), [], i + 1)
+                        t = re.match(r"(\d+)\s*(?:`(.*)`)?\s*(?:(?:iter|index)=(\w+))?\s*$", a2)
+                        if t and "index=" in a2 and t.group(3):
+                            cur = (d2, (int(t.group(1)), t.group(2), "index:" + t.group(3)), [], i + 1)
+                            body.append(cur)
+                            i += 1
+                            continue
+                        cur = (d2, (int(t.group(1)), t.group(2), t.group(3)), [], i + 1)
                         body.append(cur)
                     elif d2 == "rename":
                         t = re.match(r"(\w+)\s*=>\s*(\w+)\s*$", a2)
